@@ -143,9 +143,11 @@ func (g *genCtx) item(class string) Item {
 	case "cursor":
 		f := pick(r, []string{"A", "B", "C", "D", "G", "d", "H", "f", "H", "s", "u", "E", "F", "`", "a", "e"})
 		if f == "H" || f == "f" {
-			switch r.intn(3) {
+			switch r.intn(4) {
 			case 0:
 				return in(class, csi(g.param()+f))
+			case 1: // more parameters than the function takes: the extra ones are ignored
+				return in(class, csi(g.param()+";"+g.param()+";"+g.param()+pick(r, []string{"", ";" + g.param()})+f))
 			default:
 				return in(class, csi(g.param()+";"+g.param()+f))
 			}
@@ -248,7 +250,8 @@ func (g *genCtx) item(class string) Item {
 			{27, '(', 'B'}, {27, ')', '0'}, {27, '*', 'A'}, {27, '+', 'B'}, {27, '#', '8'}, {27, ' ', 'F'}, {27, '%', 'G'}, {27, '(', '%', '5'},
 			{27, 'H'}, {27, 'Z'}, {27, 'n'}, {27, '~'}, {27, '0'}, {27, '-', 'A'}, {27, '$', '(', 'D'}}))
 	case "osc":
-		num := pick(r, []string{"0", "2", "6", "7", "1", "4", "10", "52", "104", "", "00", "8", "99999999999999999999"})
+		num := pick(r, []string{"0", "2", "6", "7", "1", "4", "10", "52", "104", "", "00", "8", "99999999999999999999",
+			"18446744073709551616", "18446744073709551618", "18446744073709551622", "18446744073709551623", "4294967296", "4294967298", "007", "0000000000000000000002"})
 		payload := g.text(r.intn(8), true, false)
 		if r.chance(1, 4) {
 			payload = append(payload, pick(r, [][]byte{[]byte("✜"), []byte("Ü"), []byte("œ"), []byte("🌜"), []byte("😜x"), []byte("𐀜"), {27, 'x'}, []byte(";a;b"), []byte("\\"), {0xc2, 0x9c}})...)
@@ -537,6 +540,47 @@ func (g *genCtx) macro(name string) []Item {
 			goTo(pick(r, []int{t, b, r.intn(g.h), t / 2, 0, g.h - 1}), r.intn(g.w))
 			add("erase", pick(r, []string{"\x1b[J", "\x1b[1J", "\x1b[1J", "\x1b[2J", "\x1b[K", "\x1b[1K", "\x1b[2K", "\x1b[3X", "\x1b[2P"}))
 		}
+	case "erase-after-scroll":
+		// rows vacated by one scroll of several rows, then a whole-row (or row-end) edit of ONE
+		// of them under another rendition: its siblings must stay as they are
+		for k, n := 0, 1+r.intn(2); k < n; k++ {
+			goTo(r.intn(g.h), 0)
+			add("textlong", string(g.text(g.w, false, false)))
+		}
+		{
+			cnt := 2 + r.intn(3)
+			f := pick(r, []string{"S", "T", "L", "M"})
+			if f == "L" || f == "M" {
+				goTo(r.intn(g.h), r.intn(g.w))
+			}
+			add("scroll", fmt.Sprintf("\x1b[%d%s", cnt, f))
+		}
+		out = append(out, g.item("sgr"))
+		for k, n := 0, 1+r.intn(3); k < n; k++ {
+			goTo(r.intn(g.h), pick(r, []int{0, 0, r.intn(g.w)}))
+			add("erase", pick(r, []string{"\x1b[2K", "\x1b[K", "\x1b[1K", fmt.Sprintf("\x1b[%dX", g.w), fmt.Sprintf("\x1b[%dP", 1+r.intn(g.w)), "\x1b[J", "\x1b[1J"}))
+			if r.chance(1, 3) {
+				add("textlong", string(g.text(g.w, false, false)))
+			}
+		}
+	case "save-alt-restore":
+		// a saved cursor must survive a visit to the other buffer (and the other buffer's own saves)
+		goTo(r.intn(g.h), r.intn(g.w))
+		add("cursor", pick(r, []string{"\x1b[s", "\x1b7"}))
+		goTo(r.intn(g.h), r.intn(g.w))
+		add("altscreen", "\x1b[?1049h")
+		for k, n := 0, r.intn(3); k < n; k++ {
+			out = append(out, g.item(pick(r, []string{"cursor", "goto", "text", "c0"})))
+		}
+		if r.chance(1, 2) {
+			add("cursor", "\x1b[s")
+		}
+		add("altscreen", "\x1b[?1049l")
+		if r.chance(1, 2) {
+			goTo(r.intn(g.h), r.intn(g.w))
+		}
+		add("cursor", pick(r, []string{"\x1b[u", "\x1b8", "\x1b[u"}))
+		afterwards()
 	case "autowrap-corners":
 		add("wrap", "\x1b[?7h")
 		if r.chance(1, 2) {
@@ -562,7 +606,7 @@ func (g *genCtx) macro(name string) []Item {
 }
 
 var macroNames = []string{"save-resize-restore", "outside-region", "alt-roundtrip", "wide-edges", "autowrap-corners", "wide-splice",
-	"resize-wide-rows", "mark-after-motion", "alt-text-edge", "erase-with-region"}
+	"resize-wide-rows", "mark-after-motion", "alt-text-edge", "erase-with-region", "erase-after-scroll", "save-alt-restore"}
 
 func (g *genCtx) sizePick() (int, int) {
 	r := g.r
@@ -642,9 +686,9 @@ var profiles = map[string]*profile{
 		minLen: 6, maxLen: 50, grid: 25, chunks: []int{0, 1, 3}},
 	"C03": {name: "C03", gmode: 20, macros: 8, macroSet: []string{"wide-edges", "autowrap-corners", "outside-region", "wide-splice", "mark-after-motion", "alt-text-edge"}, weights: map[string]int{"text": 30, "textwide": 20, "textlong": 15, "goto": 14, "wrap": 8, "cursor": 6, "sgr": 5, "crlf": 4, "margins": 2, "badutf8": 3, "c0": 3, "altscreen": 1},
 		minLen: 4, maxLen: 40, grid: 30, chunks: []int{0, 1, 3}},
-	"C04": {name: "C04", gmode: 8, macros: 8, macroSet: []string{"outside-region", "autowrap-corners", "save-resize-restore"}, weights: map[string]int{"cursor": 40, "c0": 15, "index": 12, "goto": 6, "margins": 8, "text": 10, "textwide": 3, "wrap": 3, "lf": 5, "crlf": 3},
+	"C04": {name: "C04", gmode: 8, macros: 8, macroSet: []string{"outside-region", "autowrap-corners", "save-resize-restore", "save-alt-restore"}, weights: map[string]int{"cursor": 40, "c0": 15, "index": 12, "goto": 6, "margins": 8, "text": 10, "textwide": 3, "wrap": 3, "lf": 5, "crlf": 3, "manyparams": 2, "altscreen": 2},
 		minLen: 4, maxLen: 40, grid: 30, chunks: []int{0, 1}},
-	"C05": {name: "C05", gmode: 12, macros: 10, macroSet: []string{"wide-edges", "wide-splice", "erase-with-region"}, weights: map[string]int{"erase": 35, "goto": 20, "text": 15, "textwide": 15, "textlong": 6, "sgr": 8, "wrap": 2, "crlf": 3, "margins": 3},
+	"C05": {name: "C05", gmode: 12, macros: 10, macroSet: []string{"wide-edges", "wide-splice", "erase-with-region", "erase-after-scroll"}, weights: map[string]int{"erase": 35, "goto": 20, "text": 15, "textwide": 15, "textlong": 6, "sgr": 8, "wrap": 2, "crlf": 3, "margins": 3, "scroll": 3},
 		minLen: 5, maxLen: 40, grid: 30, chunks: []int{0, 1}},
 	"C06": {name: "C06", gmode: 10, macros: 10, macroSet: []string{"outside-region", "autowrap-corners"}, weights: map[string]int{"scroll": 25, "margins": 14, "index": 14, "lf": 8, "goto": 12, "text": 12, "textwide": 5, "textlong": 6, "wrap": 4, "sgr": 4, "crlf": 4},
 		minLen: 5, maxLen: 40, grid: 30, chunks: []int{0, 1}},
